@@ -125,13 +125,10 @@ theorem inverse_core (ρ : String → FieldDecl) (hρ : RefsAreClasses ρ) :
     simp [schemaToDecl, toSchemaF, normReq, inverse_coreL ρ hρ ss h]
   | .mapAny addlKw mn mx, h => by
     simp only [issues] at h
-    obtain ⟨h1, h2⟩ := append_nil_of_isEmpty h
-    have h1' := ite_nil' (by simp) h1
-    have h2' := ite_nil' (by simp) h2
+    have h1' := ite_nil' (by simp) h
     cases addlKw with
     | some b => simp at h1'
-    | none =>
-      cases mn <;> cases mx <;> simp_all [schemaToDecl, toSchemaF]
+    | none => simp [schemaToDecl, toSchemaF, mapSize, normReq]
   | .mapOf v mn mx, h => by
     simp only [issues] at h
     simp [schemaToDecl, toSchemaF, plainStringKey, mapSize, normReq, inverse_core ρ hρ v h]
